@@ -1,8 +1,8 @@
 from vpkg.core import Unit
 from vpkg import csrc
 _t = csrc.Tree()
-_ss = [f.name for f in _t.by_file["/repo/src/state/bidib_state_setter.c"]]
-_st = [f.name for f in _t.by_file["/repo/src/state/bidib_state.c"]]
+_ss = [f.name for f in _t.by_file[csrc.REPO + "/src/state/bidib_state_setter.c"]]
+_st = [f.name for f in _t.by_file[csrc.REPO + "/src/state/bidib_state.c"]]
 UNITS = [
     Unit(name="C07.bm_current", src="units/C07/bm_current.c", functions=["bidib_state_bm_current"], props=["C07"], no_dfcc=True,
          remove_bodies=[f for f in _ss if f != "bidib_state_bm_current"], extra_flags=["--nondet-static"], covers=2, min_obligations=8,
